@@ -41,7 +41,7 @@ func c13Specs(tier string, seed int) []c13Spec {
 	for v := 0; v < 12; v++ {
 		out = append(out, c13Spec{Kind: "endit", Var: v})
 	}
-	for v := 0; v < 8; v++ {
+	for v := 0; v < 12; v++ { // 8..11: with the monthly precipitation correction switched on
 		out = append(out, c13Spec{Kind: "weather", Var: v})
 	}
 	for v := 0; v < 6; v++ {
@@ -54,12 +54,12 @@ func init() {
 	mc.Register(&mc.Check{
 		ID:        "C13",
 		Technique: "exhaustive enumeration of input encodings as paired complete runs: every shipped crop parameter file (and generated variants of it) in classic, shipped-YAML and converter-YAML form after a full preceding crop; generated soils, rotations, measurement sets, weather series and date formats in each supported encoding; result files compared byte for byte",
-		Rule: "cropparam: rotation initial crop -> winter wheat (full season) -> crop X for every shipped file X, run with the classic file, the shipped YAML and the YAML produced by the real converter (ConvertCropParamClassicToYml + WriteCropParam); variants edit groups of fields of the classic file before converting; soil: 20 profiles in fixed-width text and CSV; rotation: 8 rotations in text and CSV; endit: 12 measurement sets in text and CSV; weather: 8 series in the three layouts; dates: 6 projects with every date-bearing input in the four date formats; " +
+		Rule: "cropparam: rotation initial crop -> winter wheat (full season) -> crop X for every shipped file X, run with the classic file, the shipped YAML and the YAML produced by the real converter (ConvertCropParamClassicToYml + WriteCropParam); variants edit groups of fields of the classic file before converting; soil: 20 profiles in fixed-width text and CSV; rotation: 8 rotations in text and CSV; endit: 12 measurement sets in text and CSV; weather: 12 series (4 with the monthly precipitation correction on) in the three layouts; dates: 6 projects with every date-bearing input in the four date formats; " +
 			"all runs of one case must produce byte-identical daily, yearly and crop files (date columns excluded where the format itself changes them); non-trivial = case whose encodings were actually read by different code paths (counted per kind)",
 		Assumptions: []string{"same content = same decimal numbers in every encoding (values chosen to fit the narrowest encoding: 2-digit percentages, 4-character carbon content, dyadic temperatures with mean = (min+max)/2)", "weather layouts compared without station-height header (the day-of-year layout cannot carry one)",
 			"the shipped YAML of a crop is expected to hold the same content as its classic file"},
 		Bound: func(t string) string {
-			return "28 crop files x " + map[string]string{"quick": "3", "thorough": "22"}[t] + " variants x 3 encodings; 20 soils x 2; 8 rotations x 2; 12 measurement sets x 2; 8 weather series x 3 layouts; 6 projects x 4 date formats"
+			return "28 crop files x " + map[string]string{"quick": "3", "thorough": "22"}[t] + " variants x 3 encodings; 20 soils x 2; 8 rotations x 2; 12 measurement sets x 2; 12 weather series x 3 layouts; 6 projects x 4 date formats"
 		},
 		Budget: func(t string) time.Duration {
 			if t == "quick" {
@@ -249,7 +249,7 @@ func c13Run(raw json.RawMessage, c *mc.Ctx) {
 		os.Remove(filepath.Join(root, "project", p.ID, "endit_"+p.ID+".txt"))
 		run("csv", p)
 	case "weather":
-		et := []int{3, 2, 4, 1, 3, 2, 3, 4}[sp.Var]
+		et := []int{3, 2, 4, 1, 3, 2, 3, 4, 3, 2, 3, 4}[sp.Var]
 		b := e1Base{Soil: "loam12", GW: 99, InitW: 0.7, InitN: 30, ET: et, Start: []string{"2001-08-15", "2003-12-30", "2000-01-01", "1999-03-01"}[sp.Var%4]}
 		p := e1Project(b, 500)
 		st := proj.D(b.Start)
@@ -270,6 +270,13 @@ func c13Run(raw json.RawMessage, c *mc.Ctx) {
 				p.Weather[i].Verd = satDeficit(p.Weather[i])
 			}
 		}
+		if sp.Var >= 8 {
+			p.Config["CorrectionPrecipitation"] = "1"
+			// rain on every day so that the month boundaries (and 29 February) carry rain
+			for i := range p.Weather {
+				p.Weather[i].Precip = float64(1 + i%4)
+			}
+		}
 		for _, layout := range []int{0, 1, 2} {
 			p.Layout = layout
 			delete(p.Config, "WeatherFile")
@@ -277,6 +284,9 @@ func c13Run(raw json.RawMessage, c *mc.Ctx) {
 			delete(p.Config, "WeatherNumHeader")
 			os.RemoveAll(filepath.Join(root, "weather"))
 			p.Write(root)
+			if sp.Var >= 8 {
+				os.WriteFile(filepath.Join(root, "weather", "w", "preco.txt"), []byte("Mo Corr\n 1 1.25\n 2 1.50\n 3 1.12\n 4 1.06\n 5 1.03\n 6 1.00\n 7 0.75\n 8 1.75\n 9 1.37\n10 1.62\n11 1.87\n12 2.00\n"), 0o644)
+			}
 			run(fmt.Sprintf("layout%d", layout), p)
 		}
 		label = fmt.Sprintf("weather series %d (ET method %d, start %s)", sp.Var, et, b.Start)
